@@ -326,6 +326,7 @@ func snapshot() []gstate {
 
 // waitQuiescent returns once every library goroutine is blocked (or gone).
 func waitQuiescent() []gstate {
+	start := time.Now()
 	for spin := 0; ; spin++ {
 		gs := snapshot()
 		ok := true
@@ -339,10 +340,13 @@ func waitQuiescent() []gstate {
 		if ok {
 			return gs
 		}
-		if spin > 200000 {
-			panic("harness: no quiescence")
+		if spin > 200000 && time.Since(start) > 2*time.Minute {
+			panic("harness: no quiescence within 2 minutes")
 		}
 		runtime.Gosched()
+		if spin > 1000 {
+			time.Sleep(50 * time.Microsecond)
+		}
 	}
 }
 
